@@ -711,10 +711,8 @@ def runAlimaskFull (argv : List String) (files : String → Option (List Char)) 
     -- record with that mask (input spacing kept, base pairs broken by the mask removed from SS_cons / SS when the alphabet is nucleic)
     if infmt != "pfam" || (p.val? "--outformat").isSome then none
     if !(p.has "--dna" || p.has "--rna" || p.has "--amino") then none
-    match mode with
-    | .gapfreq _ => none
-    | .postprob => none
-    | _ => pure ()
+    -- `-p` in --small mode reads the PP counts of esl_msafile2_ReadInfoPfam (sequences without PP lines are tolerated there): not modelled
+    if p.has "-p" then none
     if o.ofile.isSome || o.fmaskRf.isSome || o.fmaskAll.isSome || o.keepins then none
     if src.contains '\r' || src.getLast? != some '\n' then none
     let rd ← Ali.readerOf "pfam"
